@@ -191,6 +191,9 @@ def check_write(prop, tier, seed):
         plans.append(("tikv", dict(BASE_CONSTS, ConflictCarriesValue=False), "simulate", nsim // 4, 8, []))
         plans.append(("metrics", dict(BASE_CONSTS), "simulate", nsim // 8, 4, []))
         if prop == "C01":
+            # "a write that reports ... an error leaves the key unchanged": a certain error of a commit, or of the read a delete starts with
+            plans.append(("memkv", dict(BASE_CONSTS, InitStates={"none", "live", "deleted"}, ExpSet={0, 1, 4}, FaultKinds={"err", "rerr"}, FaultBudget=1),
+                          "simulate", nsim // 4, 16, []))
             # a compaction working through the key while the writers race on it: the deletions of the compactor (of old versions,
             # of a tombstone, the compare-and-delete of a tombstoned index) are steps between the writers' reads and commits
             comp = dict(BASE_CONSTS, Keys={1}, InitStates={"live", "live2", "deleted", "recreated"}, ExpSet={0, 1, 3, 4},
@@ -212,7 +215,7 @@ def check_write(prop, tier, seed):
         if prop == "C04":
             # "for every mix of outcomes": storage errors and unknown outcomes on any commit, also on the repair write
             plans.append(("memkv", dict(BASE_CONSTS, InitStates={"none", "live", "deleted"}, ExpSet={0, 1, 4},
-                                        FaultKinds={"err", "unka", "unkn"}, FaultBudget=2), "simulate", nsim // 2, 16, []))
+                                        FaultKinds={"err", "unka", "unkn", "rerr"}, FaultBudget=2), "simulate", nsim // 2, 16, []))
         if tier == "thorough":
             plans.append(("memkv", dict(BASE_CONSTS), "exhaustive", 0, 16, []))
         alltraces = []
